@@ -30,7 +30,7 @@ class WorldC10(World):
         nd = rng.randint(1, 5)
         return {'n_clients': rng.randint(1, 3), 'descriptors': DESC[:nd],
                 'descriptor_attr': rng.choice(['elements', 'elements', 'elements', 'groups']),
-                'T_ref_jitter': rng.random() < 0.2, 'max_refs': rng.randint(1, 8),
+                'T_ref_jitter': rng.random() < 0.2, 'fractional': rng.random() < 0.3, 'max_refs': rng.randint(1, 8),
                 'w_edit': rng.choice([1, 2, 3]), 'w_eval': rng.choice([2, 3]), 'w_fit': rng.choice([1, 2])}
 
     def n_steps(self, rng, swarm):
@@ -61,6 +61,8 @@ class WorldC10(World):
         for d in ds:
             if rng.random() < 0.55:
                 comp[d] = rng.choice([1, 1, 2, 2, 3, 4, 6])
+                if self.ctx.swarm.get('fractional') and rng.random() < 0.4:
+                    comp[d] = rng.choice([0.5, 1.5, 2.5, 0.25, 1.333])     # Fe2O3 as FeO1.5, per-site coverages, ...
         if not comp:
             comp[rng.choice(ds)] = rng.choice([1, 2])
         return comp
